@@ -10,9 +10,12 @@ p = os.path.join(ROOT, "manifest.d", "not_applicable.json")
 if os.path.exists(p):
     na_reasons = json.load(open(p))
 checks, claimed = [], set()
+ready = set(open(os.path.join(ROOT, "manifest.d", "READY")).read().split())   # maintained by the coordinator
 for f in sorted(glob.glob(os.path.join(ROOT, "manifest.d", "C*.json"))):
     frag = json.load(open(f))
     pid = frag["property_id"]
+    if pid not in ready:
+        continue
     claimed.add(pid)
     c = {
         "property_id": pid,
